@@ -8,8 +8,8 @@ PROP = "C04"
 def run(tier, seed, t0):
     return _sess.run_session_check(
         PROP, tier, seed, t0,
-        families=[("rpc", 400, 6000), ("chanclose", 60, 800), ("mixed", 200, 3000)],
-        own_kinds=('rpc',),
+        families=[("rpc", 400, 6000), ("chanclose", 60, 800), ("chclose_cross", 80, 1200), ("mixed", 200, 3000)],
+        own_kinds=('rpc', 'chclose-cross'),
         mc_jobs=[("MC_Conn_rpc.cfg", None, None), ("MC_Conn_rpc_bug.cfg", "Pairing", None),
                  ("MC_Conn_rpc3.cfg", None, "thorough")],
         rule="sessions of 2-4 channels on separate threads, 1-3 rounds of synchronous operations (declare, bind, unbind, "
